@@ -183,6 +183,25 @@ Example C15_collector_then_text :
   end.
 Proof. vm_compute. repeat split; reflexivity. Qed.
 
+(* Still FALSE without the fragment: the parser accepts two malformed shapes
+   that leave a segment WITHOUT a usable type -- a collector opened inside an
+   open bracket ("[(a)]": the `]` stores a segment whose type is None) and a
+   stray `]` that pops a collector's parenthesis, the imbalance then being
+   repaired by a keyword's parentheses ("(][max(())]": a COLLECTOR-typed segment
+   holding the text "]") -- and _get_nodes_by_path_segment raises
+   NotImplementedError for both (processor.py:931).  Known finding F30, found
+   while repairing F25 (same raising site, other parser states). *)
+Theorem C15_bracket_collector_refuted :
+  forall text, In text ["[(a)]"; "(][max(())]"] ->
+    match prepare 14 text with
+    | Ok p => in_fragment p = false /\
+              snd (get_required lit0 re0 nstr0 vstr0 kw0 cr0 p doc_ab) = Err (PyCrash NotImplemented)
+    | _ => False
+    end.
+Proof.
+  intros text [<-|[<-|[]]]; vm_compute; split; reflexivity.
+Qed.
+
 (* Non-vacuity: the fragment contains non-trivial parsed paths, and they select nodes. *)
 Example C15_fragment_example :
   match prepare 20 "a[.>0]" with Ok p => in_fragment p | _ => false end = true.
